@@ -74,6 +74,20 @@ def run(chk):
             built[(fname, key)] = sh
             meta.append(dict(fname=fname, key=key, sh=sh, V=V, entry=data[key], i=len(cases)))
             cases.append(C.encode_case("mesh_moments", qs=C.flat(V), idx=np.array(sh.simplices).tolist()))
+        # the table is not aliased by what it hands out: damaging a returned shape must not change the next one
+        for key in names[:2] + names[-1:]:
+            st, sh1 = C.excname(fam.get_shape, key)
+            if st != "ok":
+                continue
+            ref = np.array(sh1.vertices, float).copy()
+            try:
+                np.asarray(sh1.vertices)[...] *= 3.0
+                sh1.volume = 5.0
+            except Exception:  # noqa: BLE001
+                pass
+            st, sh2 = C.excname(fam.get_shape, key)
+            if st != "ok" or not np.array_equal(np.array(sh2.vertices, float), ref):
+                chk.violation("table-aliased", dict(family=fname, entry=key, outcome=st, what="get_shape after modifying a previously returned shape differs from the table"))
         for bad in ("No Such Solid", "cube", ""):
             st, _ = C.excname(fam.get_shape, bad)
             if st != "KeyError":
